@@ -52,6 +52,9 @@ def center_xy(rng, L, kind=None):
     kind = kind or rng.choice(['zero', 'near', 'near', 'near', 'far', 'neg', 'halfint', 'int', 'veryfar'])
     if kind == 'veryfar':          # shape tiny compared with its distance from the origin (relative tolerances bite here)
         return rng.choice([-1, 1]) * 3e6 * L * rng.uniform(0.5, 2), rng.choice([-1, 1]) * 3e6 * L * rng.uniform(0.5, 2)
+    if kind == 'ultrafar':         # 1e12..1e14 sizes away from the origin: positions are still resolved to ~L/100, offsets are exact
+        return (rng.choice([-1, 1]) * L * 2.0 ** rng.randint(40, 46) * rng.uniform(0.5, 1),
+                rng.choice([-1, 1]) * L * 2.0 ** rng.randint(40, 46) * rng.uniform(0.5, 1))
     if kind == 'zero':
         return 0.0, 0.0
     if kind == 'near':
